@@ -1,5 +1,6 @@
 import SaphyrVerif.Lemmas.C16
 import SaphyrVerif.Lemmas.C16Merge
+import SaphyrVerif.Lemmas.C16Norm
 /-!
 # C16 — reported locations are consistent with the input and name the right node
 
@@ -214,6 +215,85 @@ theorem location_fields_spec (text : List Char) (s e : Mark) (hs : MarkAt text s
   · rw [hcol, hp]
   · intro b hb'
     exact (hb b hb').1
+
+/-! ### the conversions `LiveEvents` applies for in-memory input (`location_from_span_in`, `from_scan_error_in`) -/
+
+theorem markLineCol_none (m : Mark) : markLineCol m none = (m.line, m.col + 1) := by
+  unfold markLineCol
+  split <;> rfl
+
+theorem locationFromSpanIn_none (s e : Mark) : locationFromSpanIn none s e = locationFromSpan s e := by
+  unfold locationFromSpanIn locationFromSpan
+  simp only [markLineCol_none]
+
+/-- (T) for a start mark that is a position of the text, handing over the text changes nothing: all of
+`location_fields_consistent`, `location_fields_spec`, `locations_within_input` hold verbatim for the
+conversion with the in-memory input. -/
+theorem locationFromSpanIn_of_markAt (text : List Char) (s e : Mark) (hs : MarkAt text s) :
+    locationFromSpanIn (some text) s e = locationFromSpan s e := by
+  have h := markLineCol_of_posOf text s.index hs.1
+  rw [← hs.2] at h
+  obtain ⟨hl, hc, _⟩ := hs.fields
+  unfold locationFromSpanIn locationFromSpan
+  simp only [h, hl, hc]
+
+theorem fromScanErrorIn_of_markAt (text : List Char) (m : Mark) (hm : MarkAt text m) :
+    fromScanErrorIn (some text) m = fromScanError m := by
+  have h := markLineCol_of_posOf text m.index hm.1
+  rw [← hm.2] at h
+  obtain ⟨hl, hc, _⟩ := hm.fields
+  unfold fromScanErrorIn fromScanError
+  simp only [h, hl, hc]
+
+/-- (T) location_fields_consistent for the conversion the deserializer uses on in-memory input -/
+theorem location_fields_consistent_in_memory (text : List Char) (s e : Mark) (hs : MarkAt text s) (he : MarkAt text e)
+    (hse : s.index ≤ e.index) (hsz : text.length + 1 < 4294967296) :
+    ∃ L, locationFromSpanIn (some text) s e = .ok L ∧
+      L.span.offset ≤ text.length ∧ L.span.offset + L.span.len ≤ text.length ∧
+      L.line = Spec.Locs.lineOf text L.span.offset ∧ L.column = Spec.Locs.colOf text L.span.offset + 1 ∧
+      (∀ b, L.span.byteOffset = some b → b = Spec.Locs.byteOf text L.span.offset) ∧
+      (∀ n, L.span.byteLen = some n → n = utf8Len ((text.drop L.span.offset).take L.span.len)) := by
+  rw [locationFromSpanIn_of_markAt text s e hs]
+  obtain ⟨L, hL, hoff, hin, hline, hcol, _, hb, hn, _⟩ := location_fields_consistent text s e hs he hse hsz
+  have hp := posOf_eq_spec text L.span.offset hoff
+  refine ⟨L, hL, hoff, hin, ?_, ?_, fun b hb' => (hb b hb').1, hn⟩
+  · rw [hline, hp]
+  · rw [hcol, hp]
+
+/-- (T) end_of_stream_location_consistent (full; formerly only for texts ending with a line break): the
+scanner's end-of-stream mark — which sits on a forced new line when the text does not end with a break —
+is converted, for EVERY in-memory text, into the location of the end of the text: character offset =
+length, line and column those of that offset (just after the last character of the last line).  Holds for
+the span conversion (end-of-document events, EOF errors, values of empty documents) and for scan errors. -/
+theorem end_of_stream_location_consistent (text : List Char) (hsz : text.length + 1 < 4294967296) :
+    let E := (streamEndMark text).toMark
+    (∃ L, locationFromSpanIn (some text) E E = .ok L ∧ L.span.offset = text.length ∧ L.span.len = 0 ∧
+      L.line = (posOf text text.length).line ∧ L.column = (posOf text text.length).col + 1) ∧
+    (∃ L, fromScanErrorIn (some text) E = .ok L ∧ L.span.offset = text.length ∧
+      L.line = (posOf text text.length).line ∧ L.column = (posOf text text.length).col + 1) := by
+  have hn := markLineCol_streamEnd text
+  have hb := posOf_bounds text text.length
+  have hidx : (streamEndMark text).toMark.index = text.length := by
+    have := posOf_index text text.length (Nat.le_refl _)
+    by_cases h : ((posOf text text.length).col != 0) = true <;> simp [streamEndMark, h, Pos.toMark, this]
+  have hcol0 : (streamEndMark text).toMark.col ≤ text.length := by
+    by_cases h : ((posOf text text.length).col != 0) = true
+    · simp [streamEndMark, h, Pos.toMark]
+    · simp only [streamEndMark, h, Pos.toMark]; simp only [Bool.false_eq_true, if_false]; omega
+  have hcol : ¬ ((streamEndMark text).toMark.col + 1 > Budget.USIZE_MAX) := by
+    have : Budget.USIZE_MAX = 18446744073709551615 := by decide
+    rw [this]; omega
+  simp only
+  refine ⟨⟨_, by simp only [locationFromSpanIn, hcol, Nat.lt_irrefl, if_false]; rfl, ?_⟩,
+          ⟨_, by simp only [fromScanErrorIn, hcol, if_false]; rfl, ?_⟩⟩
+  · simp only [hn, hidx, Nat.sub_self]
+    rw [asU32_of_lt (by omega : text.length < 4294967296), asU32_of_lt (by omega : (posOf text text.length).line < 4294967296),
+      asU32_of_lt (by omega : (posOf text text.length).col + 1 < 4294967296)]
+    exact ⟨rfl, rfl, rfl, rfl⟩
+  · simp only [hn, hidx]
+    rw [asU32_of_lt (by omega : text.length < 4294967296), asU32_of_lt (by omega : (posOf text text.length).line < 4294967296),
+      asU32_of_lt (by omega : (posOf text text.length).col + 1 < 4294967296)]
+    exact ⟨rfl, rfl, rfl⟩
 
 /-! ## Part B: attribution -/
 
@@ -446,37 +526,33 @@ theorem error_location_eq_spanned (fuel : Nat) (cfg : Cfg) (ty : Ty) (hty : scal
     cases ty <;> simp only [scalarTy] at hty <;> (try cases hty) <;> simpa only [deser] using h
   obtain ⟨h1, h2, h3⟩ := deserScalarTyped_err_loc cfg ty c c1 v tag rt st a l hpk e c2 hs
   unfold attachAlias errLocations
+  have h3' : (e.kind == "AliasError") = false := by simpa using h3
   by_cases hne : c1.refLoc = l
-  · simp [hne, hl, h1, h3]
-  · simp [hne, hl, href]
+  · simp [hne, hl, h1, h3']
+  · simp [hne, hl, href, h3']
 
-/-! ## The end-of-stream mark -/
+/-- (T) once an error carries both locations, no enclosing access changes them
+(`attach_alias_locations_if_missing` really is "if missing") -/
+theorem alias_error_survives_outer_access (e : DErr) (r d : Loc) (h : e.kind = "AliasError") :
+    attachAlias e r d = e := by
+  simp [attachAlias, h]
 
-/-- the mark taken when the scanner closes the stream is a position of the text (full statement; FALSE of
-the scanner's rule, see `Props/C16_Findings.lean`) -/
-def stream_end_mark_consistent_Full : Prop :=
-  ∀ text : List Char, MarkAt text (streamEndMark text).toMark
-
-/-- (T, partial) the end-of-stream mark is the position of the end of the text when the text is empty or
-ends with a line break (missing: a text whose last line is not terminated — there the mark names the
-start of a line that does not exist). -/
-theorem stream_end_mark_consistent_partial (pre : List Char) (c : Char) (hc : isBreak c = true) :
-    MarkAt (pre ++ [c]) (streamEndMark (pre ++ [c])).toMark ∧ MarkAt [] (streamEndMark []).toMark := by
-  have hcol : (posOf (pre ++ [c]) (pre ++ [c]).length).col = 0 := by
-    have : (pre ++ [c]).length = pre.length + 1 := by simp
-    rw [this]
-    unfold posOf
-    rw [walk_add]
-    simp only [List.drop_left, walk, List.head?_nil]
-    unfold Pos.step
-    simp [hc]
-  refine ⟨?_, by unfold MarkAt; decide⟩
-  have hidx : (posOf (pre ++ [c]) (pre ++ [c]).length).index = (pre ++ [c]).length := posOf_index _ _ (Nat.le_refl _)
-  unfold streamEndMark
-  simp only [hcol, bne_self_eq_false, Bool.false_eq_true, if_false]
-  unfold MarkAt
-  simp only [Pos.toMark, hidx]
-  exact ⟨Nat.le_refl _, trivial⟩
+/-- (T) error_location_eq_spanned, through any number of enclosing sequence / map accesses: the pair attached
+at the innermost access (use site, failing node) is what the caller sees, whatever use / definition sites
+`r'`, `d'` the enclosing accesses compute for their whole containers (`e` is the leaf's own error,
+`ref ≠ l`: the leaf is reached through an alias or merge).  Together with
+`error_location_eq_spanned` (the innermost access attaches exactly the pair a span-carrying value at the
+leaf reports) this is the property for leaves nested in aliased or merged containers. -/
+theorem error_location_nested (e : DErr) (ref l r' d' : Loc) (hk : e.kind ≠ "AliasError")
+    (hl : l ≠ 0) (href : ref ≠ 0) (hne : ref ≠ l) :
+    attachAlias (attachAlias e ref l) r' d' = ⟨"AliasError", ref, l⟩ ∧
+    errLocations (attachAlias (attachAlias e ref l) r' d') = some (ref, l) := by
+  have hke : (e.kind == "AliasError") = false := by simpa using hk
+  have h0 : attachAlias e ref l = ⟨"AliasError", ref, l⟩ := by
+    simp [attachAlias, hke, hl, href, hne]
+  have h1 := alias_error_survives_outer_access (attachAlias e ref l) r' d' (by rw [h0])
+  rw [h1, h0]
+  exact ⟨rfl, by simp [errLocations]⟩
 
 /-! ## Non-vacuity -/
 
@@ -492,6 +568,18 @@ example : (locationFromSpan ⟨5, 1, 5, some 4294967296⟩ ⟨6, 1, 6, some 4294
 example : (locationFromSpan ⟨5, 1, 5, some 7⟩ ⟨6, 1, 6, some 4294967303⟩) = .ok ⟨1, 6, ⟨5, 1, (0, 0)⟩⟩ := by decide
 -- `Span::len` underflows when the end mark is before the start mark
 example : (locationFromSpan ⟨5, 1, 5, some 5⟩ ⟨4, 1, 4, some 4⟩) = .panic "Span::len: end.index() - start.index()" := by decide
+
+-- the end-of-stream mark of a text without final line break sits on a forced new line (the scanner's rule,
+-- compared with the real parser by the `endmark` operation) …
+example : streamEndMark "a: [".toList = ⟨4, 2, 0, 4⟩ ∧ posOf "a: [".toList 4 = ⟨4, 1, 4, 4⟩ := by decide
+-- … and is converted into the position just after the last character when the text is at hand,
+example : locationFromSpanIn (some "a: [".toList) ⟨4, 2, 0, some 4⟩ ⟨4, 2, 0, some 4⟩ = .ok ⟨1, 5, ⟨4, 0, (4, 0)⟩⟩ := by decide
+example : fromScanErrorIn (some "é\r\nbé".toList) ⟨5, 3, 0, some 7⟩ = .ok ⟨2, 3, ⟨5, 1, (0, 0)⟩⟩ := by decide
+-- left alone without the text (reader input), after a real line break, off a character boundary, beyond the end
+example : locationFromSpanIn none ⟨4, 2, 0, some 4⟩ ⟨4, 2, 0, some 4⟩ = .ok ⟨2, 1, ⟨4, 0, (4, 0)⟩⟩ := by decide
+example : fromScanErrorIn (some "ab\n".toList) ⟨3, 2, 0, some 3⟩ = .ok ⟨2, 1, ⟨3, 1, (0, 0)⟩⟩ := by decide
+example : fromScanErrorIn (some "é".toList) ⟨1, 2, 0, some 1⟩ = .ok ⟨2, 1, ⟨1, 1, (0, 0)⟩⟩ := by decide
+example : fromScanErrorIn (some "a".toList) ⟨3, 2, 0, some 3⟩ = .ok ⟨2, 1, ⟨3, 1, (0, 0)⟩⟩ := by decide
 
 /-- `k: &a [1, <second>]` / `j: *a` as parser items (locations 10 …) -/
 def aliasDoc (second : String) : List RawItem :=
@@ -558,6 +646,10 @@ example : outcome (deserS 60 {} (.struct [("t", .map (.spanned (.leaf (.int true
     0 :: digestS (.struct [("t", .map [(.str ['z'], .spanned 21 21 (.leaf (.int 3))), (.str ['k'], .spanned 19 14 (.leaf (.int 1)))])]) := by
   decide +kernel
 
+-- a leaf inside the aliased sequence that does not fit: use site = the alias token, definition site = the LEAF
+example : outcome (deserS 40 {} aliasTy (.live aliasPump (aliasDoc "oops"))) =
+    1 :: 17 :: 14 :: "AliasError".toList.map Char.toNat := by decide +kernel
+
 #print axioms location_chars_consistent
 #print axioms location_bytes_absent_or_exact
 #print axioms location_fields_consistent
@@ -577,6 +669,10 @@ example : outcome (deserS 60 {} (.struct [("t", .map (.spanned (.leaf (.int true
 #print axioms location_fields_spec
 #print axioms deserScalarTyped_err_loc
 #print axioms error_location_eq_spanned
-#print axioms stream_end_mark_consistent_partial
+#print axioms end_of_stream_location_consistent
+#print axioms locationFromSpanIn_of_markAt
+#print axioms location_fields_consistent_in_memory
+#print axioms alias_error_survives_outer_access
+#print axioms error_location_nested
 
 end SaphyrVerif.Props.C16
